@@ -64,6 +64,10 @@ ATOMS: dict[str, tuple[str, tuple]] = {
     "a_sl__2": ("PEEK[..2]", ("slice", None, 2)),
     "a_sl__m2": ("PEEK[..-2]", ("slice", None, -2)),
     "a_sl_m2_": ("PEEK[-2..]", ("slice", -2, None)),
+    "a_sl_2_1": ("PEEK[2..1]", ("slice", 2, 1)),
+    "a_sl_m1_m2": ("PEEK[-1..-2]", ("slice", -1, -2)),
+    "a_sl_m1_m1": ("PEEK[-1..-1]", ("slice", -1, -1)),
+    "a_sl_1_m1": ("PEEK[1..-1]", ("slice", 1, -1)),
     # idioms whose exact transition follows from PEEK's clause and the definition of ! ~ * ANY
     # (the surround.pest idiom "read up to the pushed delimiter"; the optimizer rewrites it)
     "i_until_peek": ("(!PEEK ~ ANY)*", ("until", ())),
@@ -74,6 +78,7 @@ ATOMS: dict[str, tuple[str, tuple]] = {
     "i_lits_or_pop": ('"b" | "aa" | ("ab" | POP)', ("choice", (("lit", "b"), ("lit", "aa"), ("lit", "ab"), ("pop",)))),
     "i_lits_or_peek": ('("ab" | "b") | PEEK | "a"', ("choice", (("lit", "ab"), ("lit", "b"), ("peek",), ("lit", "a")))),
     "i_lit_or_drop": ('"a" | ("bb" | DROP)', ("choice", (("lit", "a"), ("lit", "bb"), ("drop",)))),
+    "a_push_any": ("PUSH(ANY)", ("push", ("any",))),
     "a_push_ci": ('PUSH(^"ab")', ("push", ("ci", "ab"))),
     "a_push_ci1": ('PUSH(^"b")', ("push", ("ci", "b"))),
     "l_a": ('"a"', ("lit", "a")),
@@ -101,6 +106,10 @@ def match_simple(m, text: str, pos: int) -> int | None:
     """Reference matcher for the arguments of PUSH(e) and for literals: end or None."""
     if m[0] == "lit":
         return pos + len(m[1]) if text.startswith(m[1], pos) else None
+    if m[0] == "any":
+        return pos + 1 if pos < len(text) else None
+    if m[0] == "any2":
+        return pos + 2 if pos + 1 < len(text) else None
     if m[0] == "ci":
         return pos + len(m[1]) if text[pos : pos + len(m[1])].lower() == m[1].lower() and len(text) >= pos + len(m[1]) else None
     if m[0] == "set":
@@ -224,11 +233,16 @@ def gen_toolbox(rng: random.Random) -> dict:
     rules: dict[str, dict] = {}
     consuming: set[str] = set(LITERALS)  # rules that consume >= 1 char whenever they succeed
 
+    p_tag = rng.choice((0.0, 0.0, 0.1, 0.25))
+
+    def maybe_tag(e):
+        return ["tag", e] if p_tag and rng.random() < p_tag else e
+
     def atom():
         a = rng.choices(names, weights)[0]
         if a in INLINE_OK and rng.random() < p_inl:
-            return ["inl", a]
-        return ["ref", a]
+            return maybe_tag(["inl", a])
+        return maybe_tag(["ref", a])
 
     def ref(prefer_comp=0.5):
         if rules and rng.random() < prefer_comp:
@@ -280,13 +294,13 @@ def gen_toolbox(rng: random.Random) -> dict:
             w.append(1)
         k = rng.choices(kinds, w)[0]
         if k in ("seq", "alt"):
-            return [k, [expr(depth - 1) for _ in range(rng.randint(2, 3))]]
+            return maybe_tag([k, [expr(depth - 1) for _ in range(rng.randint(2, 3))]])
         if k in ("opt", "and", "not"):
             return [k, expr(depth - 1)]
         if k in ("star", "plus"):
             return [k, progress_body(depth)]
         if k == "pushx":
-            return ["pushx", expr(depth - 1)]
+            return maybe_tag(["pushx", expr(depth - 1)])
         return bounded(progress_body(depth))
 
     def operand():
@@ -333,7 +347,7 @@ def gen_toolbox(rng: random.Random) -> dict:
             return any(is_consuming(x) for x in e[1])
         if k == "alt":
             return all(is_consuming(x) for x in e[1])
-        if k in ("plus", "pushx"):
+        if k in ("plus", "pushx", "tag"):
             return is_consuming(e[1])
         if k == "rep":
             return e[2] in ("exact", "min", "minmax") and is_consuming(e[1])
@@ -351,10 +365,12 @@ def gen_toolbox(rng: random.Random) -> dict:
 
 def operand_shape(o):
     """('ref', name) | ('seq', [names]) | ('rep', name, min) | None (not observable)."""
+    if o[0] == "tag":
+        return operand_shape(o[1])  # a tag changes nothing that is observed
     if o[0] in ("ref", "call"):
         return ("ref", o[1])
-    if o[0] == "seq" and all(x[0] in ("ref", "call") for x in o[1]):
-        return ("seq", [x[1] for x in o[1]])
+    if o[0] == "seq" and all(x[0] in ("ref", "call") or (x[0] == "tag" and x[1][0] in ("ref", "call")) for x in o[1]):
+        return ("seq", [(x[1][1] if x[0] == "tag" else x[1]) for x in o[1]])
     if o[0] == "rep" and o[1][0] in ("ref", "call"):
         lo = {"exact": o[3], "min": o[3], "max": 0, "minmax": o[3]}[o[2]]
         hi = {"exact": o[3], "min": None, "max": o[4], "minmax": o[4]}[o[2]]
@@ -431,6 +447,8 @@ def render_operand(e) -> str:
     really put the terminal directly under the operator), anything else is parenthesised."""
     if e[0] in ("ref", "call", "inl"):
         return render_expr(e)
+    if e[0] == "tag":
+        return "(" + render_expr(e) + ")"
     r = render_expr(e)
     return r if r.startswith("(") and r.endswith(")") and e[0] in ("seq", "alt") else "(" + r + ")"
 
@@ -441,6 +459,13 @@ def render_expr(e) -> str:
         return e[1]
     if k == "inl":
         return ATOMS[e[1]][0]  # the stack operation / literal written inline, no rule around it
+    if k == "tag":
+        # a node tag: no effect on matching or on the stack, another code path in Identifier /
+        # Group / the stack terminals (with state.tag(...))
+        inner = e[1]
+        if inner[0] == "inl" and ATOMS[inner[1]][1][0] in ("lit", "until", "choice"):
+            return "#tt = (" + render_expr(inner) + ")"  # string literals carry no tag themselves
+        return "#tt = " + render_operand(inner)
     if k == "seq":
         return "(" + " ~ ".join(render_expr(x) for x in e[1]) + ")"
     if k == "alt":
@@ -788,6 +813,8 @@ def check_structure_O4(rec, tb, text, stats):
     if name not in tb["rules"] or rec.get("post") is None or rec.get("pre") is None:
         return None
     ast = tb["rules"][name]["ast"]
+    while ast[0] == "tag":
+        ast = ast[1]
     k = ast[0]
 
     def texts(entries):
@@ -1038,6 +1065,9 @@ def gen_history(rng: random.Random, tb: dict):
         text = rng.choice(("a", "b", "ab")) * max(1, tl // 2)
     if rng.random() < 0.25 and text:
         text = "".join(ch.upper() if rng.random() < 0.4 else ch for ch in text)
+    if rng.random() < 0.12 and text:
+        # non-ASCII and astral characters (offsets are code points, not bytes or UTF-16 units)
+        text = "".join(rng.choice("\u00e9\U0001d4b3\u0131") if rng.random() < 0.2 else ch for ch in text)
     if tb.get("trivia") and text:
         # sprinkle implicit-trivia characters
         chars = {"ws": " ", "ws_nonsilent": " ", "comment": "#", "both": " #", "comment_stack": "#", "both_stack": " #", "ws_stack": " ", "ws_push": " "}[tb["trivia"]]
@@ -1313,7 +1343,7 @@ def subexprs(e):
     k = e[0]
     if k in ("seq", "alt"):
         return list(e[1])
-    if k in ("opt", "star", "plus", "and", "not", "pushx", "rep"):
+    if k in ("opt", "star", "plus", "and", "not", "pushx", "rep", "tag"):
         return [e[1]]
     return []
 
@@ -1331,7 +1361,7 @@ def shrink_ast(e):
         for i, c in enumerate(e[1]):
             for s in shrink_ast(c):
                 yield [k, e[1][:i] + [s] + e[1][i + 1 :]]
-    elif k in ("opt", "star", "plus", "and", "not", "pushx"):
+    elif k in ("opt", "star", "plus", "and", "not", "pushx", "tag"):
         for s in shrink_ast(e[1]):
             if k in ("star", "plus") and not _progress(s):
                 continue
@@ -1346,6 +1376,8 @@ def shrink_ast(e):
 
 
 def _progress(e):
+    if e[0] == "tag":
+        return _progress(e[1])
     if e[0] in ("ref", "inl"):
         return e[1] in LITERALS or e[1] in ("a_pop", "a_drop")
     if e[0] == "seq":
